@@ -279,6 +279,28 @@ pub fn run(ctx: &Ctx) {
             }
         }
     });
+    {
+        let mut t = Tally::default();
+        let mut big: Vec<Desc> = Vec::new();
+        for n in [4usize, 6, 9, 16] {
+            let mut d = Desc { name: format!("big{}", n), ips: Default::default(), ports: Default::default(), attrs: Default::default() };
+            for i in 0..n {
+                d.ips.insert(if i % 2 == 0 { format!("10.1.{}.{}", i, 200 - i) } else { format!("fd00::{:x}", 0x1000 + i * 37) });
+                d.ports.insert(1000 + (i as u16) * 1237);
+                d.attrs.insert(format!("key{}", i), if i % 3 == 0 { None } else { Some("v".repeat(i * 5)) });
+            }
+            big.push(d);
+        }
+        for d in &big {
+            t.evals += 1;
+            t.nontrivial += 1;
+            ctx.violations(check_history(&[Event::Peer(d.clone())]));
+        }
+        ctx.violations(check_history(&big.iter().map(|d| Event::Peer(d.clone())).collect::<Vec<_>>()));
+        t.outcome("faithful-big");
+        ctx.merge(t);
+        ctx.space("larger instances: 4, 6, 9 and 16 addresses / ports / attributes each, alone and all four in one history", 5, "complete");
+    }
     ctx.space("single announcements: 6144 instance descriptions x {with channel, without}", descs.len() as u64, "complete");
     ctx.sample(json!({"kind": "history", "events": [Event::Peer(descs[descs.len() / 2 + 7].clone())]}));
     // histories
